@@ -160,6 +160,32 @@ class FlipDomain(Domain):
         return None
 
 
+def _mask_orientation(run, fw, results):
+    """Boolean-mask stores: the mask was taken from an array in the same orientation as the array it is applied to."""
+    n = 0
+    seen = set()
+    for p in results:
+        for e in p.events:
+            if e['kind'] != 'arrstore' or not isinstance(e['index'], FlipArr):
+                continue
+            n += 1
+            a, m = e['arr'], e['index']
+            key = (e['node'].lineno, a.ud, a.lr, a.rank, m.ud, m.lr, m.rank)
+            if key in seen:
+                continue
+            seen.add(key)
+            run.check((a.ud, a.lr, a.rank) == (m.ud, m.lr, m.rank), 'C14.sentinel', fw.qual, 'mask orientation `%s`' % norm_stmt(e['node']),
+                      'the invalid-sample mask is taken from the map in the orientation of the array it is applied to',
+                      '`%s`: the mask was computed from the map %s but is applied to the map %s: invalid samples are written at mirrored positions and the valid samples at the true positions are lost'
+                      % (norm_stmt(e['node']), _orient(m), _orient(a)), fw.loc(e['node']))
+    if n == 0:
+        raise AnalysisError('%s: no boolean-mask store of the invalid samples found' % fw.qual)
+
+
+def _orient(a):
+    return {(0, 0): 'as given', (1, 0): 'flipped up-down', (0, 1): 'flipped left-right', (1, 1): 'flipped both ways'}[(a.ud, a.lr)] + (' (rank %d)' % a.rank if a.rank != 2 else '')
+
+
 def orientation_rules(run, db):
     # ---- Zygo
     fw, fr = db.func(IO + 'write_zygo_dat'), db.func(IO + 'read_zygo_dat')
@@ -182,6 +208,7 @@ def orientation_rules(run, db):
     ser = [e for p in wres for e in p.events if e['kind'] == 'serialise']
     if not ser:
         raise AnalysisError('write_zygo_dat: serialisation (tobytes) of the phase array not found')
+    _mask_orientation(run, fw, wres)
     wflip = {(e['arr'].ud, e['arr'].lr, e['arr'].rank) for e in ser}
     if len(wflip) != 1:
         raise AnalysisError('write_zygo_dat: paths serialise differently oriented arrays')
@@ -224,6 +251,7 @@ def codev_rules(run, db):
     ser = [e for p in wres for e in p.events if e['kind'] == 'serialise']
     if not ser:
         raise AnalysisError('write_codev_gridint: np.savetxt of the array not found')
+    _mask_orientation(run, fw, wres)
     wflip = {(e['arr'].ud, e['arr'].lr) for e in ser}
     if len(wflip) != 1:
         raise AnalysisError('write_codev_gridint: inconsistent orientations serialised')
